@@ -51,12 +51,17 @@ def case_from_seed(seed, index, **kw):
 
 
 # ------------------------------------------------------------------ building
-def build_funcs(case, log=None, fault=None, tag=None, cache=None, prefix="", extra=None):
+def build_funcs(case, log=None, fault=None, tag=None, cache=None, prefix="", extra=None, explicit_defaults=False):
+    """explicit_defaults: declare the defaults through PipeFunc(defaults=...) (stored on the PipeFunc) instead of
+    through the function signature."""
     from pipefunc import PipeFunc
 
     out = []
     for f in case["funcs"]:
         idef = {ip: f["defaults"][p] for p, ip in zip(f["params"], f["iparams"]) if p in f["defaults"]}
+        xdef = {}
+        if explicit_defaults:
+            xdef, idef = {p: f["defaults"][p] for p in f["params"] if p in f["defaults"] and p not in f["bound"]}, {}
         fn = probes.make_probe(prefix + f["name"], f["iparams"], len(f["outs"]), log=log, defaults=idef, tag=tag,
                                fault=(fault or {}).get(f["name"]) if fault else None, ret=f.get("ret"))
         renames = {ip: p for p, ip in zip(f["params"], f["iparams"]) if ip != p}
@@ -65,6 +70,8 @@ def build_funcs(case, log=None, fault=None, tag=None, cache=None, prefix="", ext
             kw["renames"] = renames
         if f["bound"]:
             kw["bound"] = dict(f["bound"])
+        if xdef:
+            kw["defaults"] = xdef
         if cache and f["name"] in cache:
             kw["cache"] = True
         if extra and f["name"] in extra:
